@@ -50,6 +50,9 @@ func checkC16(c *Ctx) {
 	c.starSkeleton()
 	c.generatorCommands("GENCMD")
 	c.orientRule("ORIENT")
+	c.Decides("BUF-FLUSH: every bufio.Writer of the repository (none in the generate commands today) is flushed, and not by a deferred Flush that would run after an ordinary close of its file")
+	c.bufFlush("BUF-FLUSH", c.All, "returns each of the ... topologies exactly once")
+	c.Floor("BUF-FLUSH", 3)
 	c.Decides("SHADOW-RESULT: no function of the repository with a named error result (the RunE closures of the generate commands included) hides that result behind an inner `err :=` whose failure branch neither returns nor stops: the rejection of a bad size would be logged and reported as success")
 	nsr, _ := c.shadowResult("SHADOW-RESULT", c.All, "sizes below the documented minimum are rejected with an error")
 	if nsr < 100 {
